@@ -199,6 +199,32 @@ def u_quantities(ctx):
     ctx.eq("volume = sum of the placed instances' volumes", sc.volume, vol)
 
 
+def u_chain(ctx):
+    """world -I-> n0 -M1-> n1 -M2-> n2 with geometry on every node; the order in which nodes are first read is the solver's choice"""
+    import itertools
+
+    import trimesh
+
+    _c04()._stub(ctx)
+    kinds = ctx.params["kinds"]
+    tet = _mesh(ctx, TET_V, TET_F)
+    sc = trimesh.Scene()
+    M1r, M1, s1 = _M(ctx, 0, kinds[0])
+    M2r, M2, s2 = _M(ctx, 1, kinds[1])
+    sc.add_geometry(tet, node_name="n0", geom_name="tet", transform=np.eye(4))
+    sc.add_geometry(tet, node_name="n1", geom_name="tet", parent_node_name="n0", transform=M1r)
+    sc.add_geometry(tet, node_name="n2", geom_name="tet", parent_node_name="n1", transform=M2r)
+    ref = {"n0": (np.eye(4, dtype=object), 1, "tet"), "n1": (M1, s1, "tet"), "n2": (lib.matmul(M1, M2), s1 * s2, "tet")}
+    placed = _placed(ref)
+    order = list(itertools.permutations(["n0", "n1", "n2"]))[ctx.choice("order", 6)]
+    for n in order:
+        T, g = sc.graph[n]
+        Tn = np.asarray(nparr.base(T) if ctx.sym else T, dtype=object if ctx.sym else float)
+        ctx.eq("first read of %s (read order %s)" % (n, ">".join(order)), np.array([lib.apply_h(Tn, list(v)) for v in TET_V], dtype=object if ctx.sym else float), placed[n])
+    _check_scene(ctx, sc, placed, "chain (read order %s)" % ">".join(order))
+    _tri_check(ctx, sc, ref, placed, "chain")
+
+
 def _snapshot(ctx, sc):
     snap = {}
     for n in sorted(sc.graph.nodes):
@@ -271,13 +297,26 @@ def u_derived(ctx):
         other = trimesh.Scene()
         M5r, M5, s5 = _M(ctx, 4, "st")
         other.add_geometry(_mesh(ctx, STRIP_V, STRIP_F), node_name="n3", geom_name="strip", transform=M5r)
+        # more clashing / look-alike names, one of them nested below a clashing node
+        P1 = np.eye(4, dtype=object)
+        P1[0, 3], P1[1, 3] = 40, 2
+        P2 = np.eye(4, dtype=object)
+        P2[2, 3] = -30
+        P3 = np.eye(4, dtype=object)
+        P3[1, 3] = 55
+        other.add_geometry(_mesh(ctx, TET_V, TET_F), node_name="n1", geom_name="tet", transform=_as(ctx, P1))
+        other.add_geometry(_mesh(ctx, TET_V, TET_F), node_name="sub", geom_name="tet", parent_node_name="n1", transform=_as(ctx, P2))
+        other.add_geometry(_mesh(ctx, TET_V, TET_F), node_name="n1_1", geom_name="tet", transform=_as(ctx, P3))
+        extra = {"other-n1": (P1, TET_V), "other-sub": (lib.matmul(P1, P2), TET_V), "other-n1_1": (P3, TET_V)}
         osnap = _snapshot(ctx, other)
         out = sc + other
         # node / geometry names clash: both must survive (possibly renamed); compare the multiset of placements through dump()
         d = out.dump()
-        ctx.concrete_equal("sum: one dumped geometry per instance of both scenes", len(d), 4)
+        ctx.concrete_equal("sum: one dumped geometry per instance of both scenes", len(d), 7)
         exp = dict(placed)
         exp["other-n3"] = np.array([lib.apply_h(M5, list(v)) for v in STRIP_V], dtype=object)
+        for k, (W, VV) in extra.items():
+            exp[k] = np.array([lib.apply_h(W, list(v)) for v in VV], dtype=object)
         left = dict(exp)
         for x in d:
             v = _verts(ctx, x)
@@ -356,6 +395,9 @@ def units(tier):
                 continue
             us.append(Unit("%s-%s" % (op, fam), u_derived, params={"kinds": FAMILIES[fam], "op": op, "extras": op not in ("add",)}, key="%s/%s" % (op, fam), functions=FUN,
                            bounds="same forest, operation '%s', edge family '%s', all parameter values" % (op, fam), max_paths=80, wall_s=400, linear=fam in ("t", "rot") and op in ("copy", "rezero", "subscene", "add")))
+    for fam in ("t", "st", "rot"):
+        us.append(Unit("chain-%s" % fam, u_chain, params={"kinds": FAMILIES[fam]}, key="chain/%s" % fam, functions=FUN,
+                       bounds="chain world -identity-> n0 -> n1 -> n2 (geometry on each), all 6 orders of first reads, edge family '%s'" % fam, max_paths=60, wall_s=300, linear=fam in ("t", "rot")))
     if T:
         for op in ("copy", "scaled", "apply_transform"):
             us.append(Unit("%s-st-read-first" % op, u_derived, params={"kinds": FAMILIES["st"], "op": op, "read_first": True}, key="%s/st" % op, functions=FUN, bounds="as above after reading bounds/triangles/area", max_paths=80, wall_s=400))
